@@ -305,6 +305,13 @@ def run(chk):
             tb = oqupy.PtTebd(initial_augmented_mps=oqupy.AugmentedMPS(rhos), system_chain=chain, process_tensors=[None] * nsites,
                               parameters=oqupy.PtTebdParameters(dt=0.1, order=1, epsrel=1e-12), dynamics_sites=list(range(nsites)),
                               chain_control=cc)
+            # the propagation in one call, or interrupted and resumed (a call that ends at an intermediate step, the same call again,
+            # then the rest): a control of the junction step still acts exactly once
+            if i % 2 == 1 and N >= 2:
+                k_ = rng.randint(1, N - 1)
+                quiet(tb.compute, k_, progress_type="silent")
+                quiet(tb.compute, k_, progress_type="silent")
+                info["compute_calls"] = [k_, k_, N]
             res = quiet(tb.compute, N, progress_type="silent")
             ident = np.identity(d2, dtype=complex)
             worst = 0.0
